@@ -9,7 +9,7 @@
 use crate::midi::*;
 use crate::scan::*;
 use core::time::Duration;
-use helgoboss_midi::verif_hooks::set_now_millis;
+use helgoboss_midi::verif_hooks::set_now_ticks;
 use helgoboss_midi::*;
 use std::sync::atomic::{AtomicBool, Ordering};
 use xs::{h64, Step, System, Violation};
@@ -109,6 +109,10 @@ pub struct PollSys {
     pub timeout: u64,
     /// the exact timeout in microseconds (a timeout need not be a whole number of milliseconds)
     pub timeout_us: u64,
+    /// length of one clock tick in nanoseconds: 1 ms normally; the explorations of timeouts that are
+    /// not whole milliseconds use a finer tick, so that polls fall between whole milliseconds and
+    /// exactly on the timeout. `now`, `timeout`, `cap`, ages and pauses are all in ticks.
+    pub tick_ns: u64,
     /// an astronomically long timeout given as a Duration (never expires within any explored age);
     /// chosen so that a conversion truncated to 32 or 64 bits aliases it to zero
     pub exotic: Option<(Duration, &'static str)>,
@@ -179,6 +183,7 @@ impl PollSys {
             ch,
             timeout,
             timeout_us: timeout.saturating_mul(1000),
+            tick_ns: 1_000_000,
             exotic: None,
             cap: cap_for(timeout, cap_mult),
             pauses: if WRAP16.load(Ordering::Relaxed) { vec![998, 1000, (1 << 16) - 2, 1 << 16, (1 << 20) + 100, (1 << 32) - 2, 1 << 32] } else { vec![998, 1000, (1 << 20) + 100, (1 << 32) - 2, 1 << 32] },
@@ -278,9 +283,34 @@ impl PollSys {
         self
     }
 
-    /// has the timeout passed after `age` milliseconds?
-    fn expired(&self, age_ms: u64) -> bool {
-        age_ms.saturating_mul(1000) >= self.timeout_us
+    /// A finer clock: one tick = `tick_us` microseconds. Timeout, CAP and pauses are re-expressed in
+    /// ticks; the wrap-around and whole-second pauses keep their meaning only on the millisecond
+    /// clock, so only the plain long pause stays.
+    pub fn with_tick_us(mut self, tick_us: u64) -> Self {
+        assert!(self.timeout < T_INF && self.exotic.is_none());
+        self.tick_ns = tick_us * 1000;
+        self.timeout = (self.timeout_us + tick_us - 1) / tick_us;
+        self.cap = cap_for(self.timeout, 1);
+        self.pauses = vec![(1 << 20) + 100];
+        self
+    }
+
+    fn clock(&self, ticks: u64) {
+        set_now_ticks(ticks, self.tick_ns);
+    }
+
+    /// renders a number of ticks as milliseconds
+    fn ms(&self, ticks: u64) -> String {
+        if self.tick_ns == 1_000_000 {
+            format!("{}", ticks)
+        } else {
+            format!("{}", ticks as f64 * self.tick_ns as f64 / 1e6)
+        }
+    }
+
+    /// has the timeout passed after `age` ticks?
+    fn expired(&self, age: u64) -> bool {
+        (age as u128) * (self.tick_ns as u128) >= (self.timeout_us as u128) * 1000
     }
 
     fn v13(&self, rule: &str, cls: &str, detail: impl FnOnce() -> String) -> Violation {
@@ -355,7 +385,7 @@ impl PollSys {
     /// One real feed judged by the observer; always returns the successor.
     fn feed_core(&self, s: &PoState, st: u8, d1: u8, d2: u8) -> Step<PoState> {
         let mut v = Vec::new();
-        set_now_millis(s.now);
+        self.clock(s.now);
         let mut sc = s.sc;
         let msg = raw(st, d1, d2);
         let out = sc.feed_msg(&msg);
@@ -403,18 +433,18 @@ impl PollSys {
             // R4: the mere passage of time never changes what feed returns
             let later: [u64; 4] = if self.timeout >= T_INF { [1, 2, 1000, self.cap] } else { [1, self.timeout.max(1), self.timeout + 1, self.cap] };
             for dt in later {
-                set_now_millis(s.now + dt);
+                self.clock(s.now + dt);
                 let mut c2 = s.sc;
                 let o2 = c2.feed_msg(&msg);
                 if o2 != out {
-                    v.push(self.v13("R4-time-does-not-change-feed", &trigger, || format!("{} returns {:?} now but {:?} when fed {} ms later", trigger, out.map(|o| o.map(|t| pnm_str(&t))), o2.map(|o| o.map(|t| pnm_str(&t))), dt)));
+                    v.push(self.v13("R4-time-does-not-change-feed", &trigger, || format!("{} returns {:?} now but {:?} when fed {} ms later", trigger, out.map(|o| o.map(|t| pnm_str(&t))), o2.map(|o| o.map(|t| pnm_str(&t))), self.ms(dt))));
                     break;
                 }
             }
-            set_now_millis(s.now);
+            self.clock(s.now);
         }
         if self.report.dup {
-            set_now_millis(s.now);
+            self.clock(s.now);
             let mut copy = s.sc;
             let out2 = copy.feed_msg(&msg);
             if out2 != out || copy != sc {
@@ -422,7 +452,7 @@ impl PollSys {
             }
         }
         if self.report.repr {
-            set_now_millis(s.now);
+            self.clock(s.now);
             if let Some(d) = repr_divergence(&s.sc, &sc, &out, st, d1, d2) {
                 v.push(self.vx("representation-matters", "feed", || format!("({:#04X},{},{}): {}", st, d1, d2, d)));
             }
@@ -519,7 +549,7 @@ impl PollSys {
 
     fn do_poll(&self, s: &PoState) -> Step<PoState> {
         let mut v = Vec::new();
-        set_now_millis(s.now);
+        self.clock(s.now);
         let mut sc = s.sc;
         let out = sc.poll_ch(self.ch);
         let ob = &s.ob;
@@ -534,7 +564,7 @@ impl PollSys {
             if let (Some((b, _)), Some(age)) = (ob.owed, age_owed) {
                 let reported = out.map_or(false, |t| is_7bit_entry(&t) && t[2] == b as u32);
                 if self.expired(age) && !reported {
-                    v.push(self.v14("P6-pending-msb-lost", "poll", || format!("controller-6 byte {} was pending for {} ms (timeout {}); the first poll after the timeout returned {:?} without reporting it", b, age, self.tname(), out.map(|t| pnm_str(&t)))));
+                    v.push(self.v14("P6-pending-msb-lost", "poll", || format!("controller-6 byte {} was pending for {} ms (timeout {}); the first poll after the timeout returned {:?} without reporting it", b, self.ms(age), self.tname(), out.map(|t| pnm_str(&t)))));
                 }
             }
         }
@@ -542,7 +572,7 @@ impl PollSys {
             match (&out, ob.owed, age_owed) {
                 (Some(t), Some((b, _)), Some(age)) => {
                     if !self.expired(age) {
-                        v.push(self.v13("R1-poll-returns-only-after-timeout", "early", || format!("poll returned {} only {} ms after the data entry MSB was fed (timeout {})", pnm_str(t), age, self.tname())));
+                        v.push(self.v13("R1-poll-returns-only-after-timeout", "early", || format!("poll returned {} only {} ms after the data entry MSB was fed (timeout {})", pnm_str(t), self.ms(age), self.tname())));
                     }
                     let want = [self.ch as u32, ob.number().unwrap_or(u32::MAX), b as u32, ob.reg as u32, 0, 0];
                     if *t != want {
@@ -554,7 +584,7 @@ impl PollSys {
                 }
                 (None, Some((b, _)), Some(age)) => {
                     if self.expired(age) {
-                        v.push(self.v13("R2-poll-returns-expired-pending-msb", "missing", || format!("data entry MSB {} has been pending for {} ms (timeout {}) but poll returned nothing", b, age, self.tname())));
+                        v.push(self.v13("R2-poll-returns-expired-pending-msb", "missing", || format!("data entry MSB {} has been pending for {} ms (timeout {}) but poll returned nothing", b, self.ms(age), self.tname())));
                     }
                 }
                 _ => {}
@@ -566,7 +596,7 @@ impl PollSys {
             }
         }
         if self.report.dup {
-            set_now_millis(s.now);
+            self.clock(s.now);
             let mut copy = s.sc;
             let out2 = copy.poll_ch(self.ch);
             if out2 != out || copy != sc {
@@ -603,10 +633,10 @@ impl System for PollSys {
         self.pid.to_string()
     }
     fn name(&self) -> String {
-        format!("PollingParameterNumberMessageScanner x history-observer [ch={}, timeout={}, age cap={}, |alphabet|={}, probes={}, transparent={}]", self.ch, self.tname(), self.cap, self.alphabet.len(), self.probes.len(), self.noncontrib.len())
+        format!("PollingParameterNumberMessageScanner x history-observer [ch={}, timeout={}, tick={}us, age cap={}, |alphabet|={}, probes={}, transparent={}]", self.ch, self.tname(), self.tick_ns / 1000, self.cap, self.alphabet.len(), self.probes.len(), self.noncontrib.len())
     }
     fn init(&self) -> PoState {
-        set_now_millis(0);
+        self.clock(0);
         PoState {
             sc: self.new_scanner(),
             now: 0,
@@ -733,8 +763,8 @@ impl System for PollSys {
             PoAct::Cc(c, v) | PoAct::CcProbe(c, v) => format!("println!(\"{{:?}}\", scanner.feed(&helgoboss_midi::test_util::control_change({}, {}, {})));", self.ch, c, v),
             PoAct::Other(_) | PoAct::Transparent(_) => format!("// feed {}", self.render(a)),
             PoAct::Poll => format!("println!(\"{{:?}}\", scanner.poll(helgoboss_midi::test_util::channel({})));", self.ch),
-            PoAct::Tick => "clock += 1; helgoboss_midi::verif_hooks::set_now_millis(clock); // (std::thread::sleep(1ms) with the real clock)".to_string(),
-            PoAct::Pause(i) => format!("clock += {}; helgoboss_midi::verif_hooks::set_now_millis(clock);", self.pauses[*i as usize]),
+            PoAct::Tick => format!("clock += 1; helgoboss_midi::verif_hooks::set_now_ticks(clock, {}); // one tick = {} us", self.tick_ns, self.tick_ns / 1000),
+            PoAct::Pause(i) => format!("clock += {}; helgoboss_midi::verif_hooks::set_now_ticks(clock, {});", self.pauses[*i as usize], self.tick_ns),
             PoAct::ResetStorm(i) => {
                 let (n, traffic) = self.storms[*i as usize];
                 if traffic {
@@ -765,7 +795,7 @@ impl PollSys {
             }
             PoAct::Transparent(i) => {
                 let (st, d1, d2) = self.noncontrib[*i as usize];
-                set_now_millis(s.now);
+                self.clock(s.now);
                 let mut sc = s.sc;
                 let out = sc.feed_msg(&raw(st, d1, d2));
                 let mut v = Vec::new();
@@ -800,7 +830,7 @@ impl PollSys {
                 violations: Vec::new(),
             },
             PoAct::ResetStorm(i) => {
-                set_now_millis(s.now);
+                self.clock(s.now);
                 let (n, traffic) = self.storms[*i as usize];
                 let mut sc = s.sc;
                 let other = raw(0x90 | ((self.ch + 1) % 16), 1, 1);
@@ -832,7 +862,7 @@ impl PollSys {
                 }
             }
             PoAct::TouchAll => {
-                set_now_millis(s.now);
+                self.clock(s.now);
                 let mut sc = s.sc;
                 let mut v = Vec::new();
                 for c in 0..16u8 {
@@ -846,7 +876,7 @@ impl PollSys {
                 Step { strict: false, next: Some(PoState { sc, now: s.now, ob: s.ob }), obs: 0, violations: v }
             }
             PoAct::Reset => {
-                set_now_millis(s.now);
+                self.clock(s.now);
                 let mut sc = s.sc;
                 sc.reset();
                 let ob = Obs {
@@ -863,7 +893,7 @@ impl PollSys {
             PoAct::ResetProbe => {
                 let mut v = Vec::new();
                 if self.report.reset {
-                    set_now_millis(s.now);
+                    self.clock(s.now);
                     let mut sc = s.sc;
                     sc.reset();
                     let fresh = self.new_scanner();
@@ -914,11 +944,23 @@ fn run_observer(chk: &xs::Check, tier: xs::Tier, pid: &'static str, report: PRep
         touts.push((1, 500));
     }
     for &(t, t_us) in &touts {
+        // timeouts that are not whole milliseconds run on a finer clock (half / quarter millisecond
+        // ticks), so that polls fall exactly on the timeout and between it and the next whole
+        // millisecond
+        let fine = |s: PollSys| -> PollSys {
+            if t_us % 1000 == 0 {
+                s
+            } else if t_us < 1000 {
+                s.with_tick_us(250)
+            } else {
+                s.with_tick_us(500)
+            }
+        };
         for &c in &channels {
             if t_us % 1000 != 0 && c != channels[0] {
                 continue;
             }
-            let mut sys = PollSys::new(pid, c, t, 1, &v3, true, report).with_timeout_us(t_us);
+            let mut sys = fine(PollSys::new(pid, c, t, 1, &v3, true, report).with_timeout_us(t_us));
             if !tier.thorough() && !(t_us == 2000 && c == channels[0]) {
                 // quick tier: the whole-second pauses (and the age classes they create) only in one
                 // exploration per check
@@ -953,7 +995,7 @@ fn run_observer(chk: &xs::Check, tier: xs::Tier, pid: &'static str, report: PRep
             }
             if tier.thorough() && c == 0 {
                 // doubled age cap: same verdict required
-                let mut sys2 = PollSys::new(pid, c, t, 2, &v3, false, report).with_timeout_us(t_us);
+                let mut sys2 = fine(PollSys::new(pid, c, t, 2, &v3, false, report).with_timeout_us(t_us));
                 sys2.cap = cap_for(sys2.timeout, 2);
                 let out2 = xs::explore(&sys2, &Limits::default());
                 engine::record(chk, &sys2, &out2, None);
@@ -971,7 +1013,7 @@ fn run_observer(chk: &xs::Check, tier: xs::Tier, pid: &'static str, report: PRep
                 // the depth for - must agree on the number of canonical states
                 if out.found.is_empty() {
                     let plain = || {
-                        let mut s = PollSys::new(pid, c, t, 1, &v3, false, report).with_timeout_us(t_us);
+                        let mut s = fine(PollSys::new(pid, c, t, 1, &v3, false, report).with_timeout_us(t_us));
                         s.pauses.clear();
                         s
                     };
@@ -985,7 +1027,7 @@ fn run_observer(chk: &xs::Check, tier: xs::Tier, pid: &'static str, report: PRep
             }
         }
         if tier.thorough() {
-            let sys = PollSys::new(pid, 3, t, 1, &v8, true, report).with_timeout_us(t_us);
+            let sys = fine(PollSys::new(pid, 3, t, 1, &v8, true, report).with_timeout_us(t_us));
             let out = xs::explore(&sys, &Limits { max_states: 8_000_000, ..Default::default() });
             engine::record(chk, &sys, &out, None);
         }
